@@ -252,8 +252,14 @@ def run(R: Run):
         sp = shape_spellings(shape)
         sel = X[r_]
         ref = {}
+        nm_ = rng.choice(sorted(sp))      # the model sees the values; the real call gets one of the spellings
+        shp_ = sp[nm_]
+        sh_s, roi_s = list_s(list(shape), str), list_s(list(r_), enc)
+        R.corr(f"c17 normnd {sh_s} {roi_s}", lambda: list_s(list(roi.roi_normalise(r_, shp_)), ns), sig=f"normnd|{nm_}")
+        R.corr(f"c17 fullnd {sh_s} {roi_s}", lambda: bool_s(roi.roi_is_full(r_, shp_)), sig=f"fullnd|{nm_}")
         pad = rng.choice([0, 1, 2])
         k = rng.randint(1, 4)
+        R.corr(f"c17 padnd {sh_s} {pad} {roi_s}", lambda: list_s(list(roi.roi_pad(r_, pad, shp_)), ns), sig=f"padnd|{nm_}")
         for nm, shp in sp.items():
             case = {"roi": [enc(x) for x in r_], "shape": list(shape), "spelling": nm}
             o = guarded(lambda: roi.roi_normalise(r_, shp))
